@@ -21,6 +21,11 @@ import DclabModel.DriveUtil
     tdms <firstEmpty> <lastEmpty> <n>           → kept event indices
     paths <in-name> <out-name> <samedir 0|1>    → `refused` | `out=<name> temp=<name>`  (setup_task_paths)
     bulk <feats,…|-> …                          → features exported for each measurement of a directory
+    tdmsx <initial> <final> <hasImage> <frameOffset> <contour0> <image0> <lastBad> <n>
+                                                → `flags=<a><b> kept=<indices>` (skipFlags + closed form tdmsKept)
+    gens <n> <sfx0,sfx1,…>                      → logs of the current file after n compress runs:
+                                                  `name~c<k>` (command log of run k) / `name~u`, then
+                                                  ` next=<0|1>` (would run n+1 with hash sfx n collide)
 -/
 open DclabModel.Copy DclabModel.DriveUtil
 
@@ -207,6 +212,29 @@ def handle (b : B) (line : String) : B × String :=
   | "bulk" :: ms =>
     let lists := ms.map parseNames
     (b, joinWith " " ((bulkFeatures lists).map fun l => if l.isEmpty then "-" else joinWith "," l))
+  | ["tdmsx", ini, fin, hi, off, c0, i0, lb, n] =>
+    match n.toNat? with
+    | some n =>
+      let fl := skipFlags (ini == "1") (fin == "1") (hi == "1") (off == "1") (c0 == "1") (i0 == "1")
+        (lb == "1")
+      (b, "flags=" ++ (if fl.1 then "1" else "0") ++ (if fl.2 then "1" else "0") ++ " kept=" ++
+        showNats (tdmsKept fl.1 fl.2 (List.range n)))
+    | none => (b, "bad-op")
+  | ["gens", n, sfxs] =>
+    match n.toNat? with
+    | some n =>
+      let sl := parseNames sfxs
+      let sfx : Nat → String := fun k => sl.getD k ""
+      let cmd : Nat → Dset := fun k => { rows := [[777000 + k]], compressed := true }
+      let env := mkEnv b
+      let g := compressGen env id sfx cmd n f
+      let ls := g.logs.getD []
+      let tag (d : Dset) : String := match d.rows with
+        | [[v]] => if v ≥ 777000 then "c" ++ toString (v - 777000) else "u"
+        | _ => "u"
+      (b, joinWith "," (ls.map fun kd => kd.1 ++ "~" ++ tag kd.2) ++ " next=" ++
+        (if renameCollides (sfx n) ls then "1" else "0"))
+    | none => (b, "bad-op")
   | ["tdms", a, l, n] =>
     match n.toNat? with
     | some n => (b, showNats (tdms2rtdcRows (a == "1") (l == "1") (List.range n)))
